@@ -68,6 +68,11 @@ func timeNs(v Value) *Term { return v.(*StructV).F[1].(*Term) }
 func (w *Worker) now(s *State) *Term {
 	s.nclock++
 	tc := w.tc
+	if s.clock != nil && s.ghost != nil {
+		if _, frozen := s.ghost["clockfrozen"]; frozen {
+			return s.clock
+		}
+	}
 	if s.clock == nil {
 		t := w.input(s, "clock.0", bv(64))
 		c := tc.And(tc.Cmp("bvsle", tc.BV(64, 0), t), tc.Cmp("bvslt", t, tc.BV(64, 1<<60)))
@@ -212,7 +217,14 @@ func init() {
 					}
 				}
 			}
+			if k, done := s.chosen[name]; done {
+				return w.tc.BV(64, uint64(k)), false // a named choice is made once per path
+			}
 			k := w.decide(s, n, "choose", name)
+			if s.chosen == nil {
+				s.chosen = map[string]int{}
+			}
+			s.chosen[name] = k
 			return w.tc.BV(64, uint64(k)), false
 		},
 		"Assume": func(w *Worker, s *State, f *Frame, fn *ssa.Function, a []Value, d int) (Value, bool) {
@@ -316,6 +328,13 @@ func init() {
 		},
 		"IfInt32": func(w *Worker, s *State, f *Frame, fn *ssa.Function, a []Value, d int) (Value, bool) {
 			return w.tc.Ite(w.term(a[0]), w.term(a[1]), w.term(a[2])), false
+		},
+		"FreezeClock": func(w *Worker, s *State, f *Frame, fn *ssa.Function, a []Value, d int) (Value, bool) {
+			if s.ghost == nil {
+				s.ghost = map[string]Value{}
+			}
+			s.ghost["clockfrozen"] = w.tc.True
+			return nil, false
 		},
 		"Prop": func(w *Worker, s *State, f *Frame, fn *ssa.Function, a []Value, d int) (Value, bool) {
 			return w.tc.Bool(len(w.cfg.Props) == 0 || w.cfg.Props[w.concStr(a[0], "property id")]), false
